@@ -47,7 +47,9 @@ def units(tier):
 
 def configs_for(info, tier):
     names = info["params"] + info["locals"]
-    out = [("tooled",), ("inplace",), ("generic",), ("meta",), ("ext",)]
+    out = [("tooled",), ("inplace",), ("generic",), ("meta",)]
+    if "E" in info["symbols"]:
+        out.append(("ext",))
     subsets = []
     k = len(names)
     if k <= 3:
